@@ -507,6 +507,52 @@ def install(I):
             outs.append(Outcome(s2, 'ret', NONE if idx is None else some(Ref(r.cell, r.path + (idx, 1), 'get_mut' in f))))
         return outs
 
+    # entry API: Entry::Occupied(OccupiedEntry{map, index}) / Entry::Vacant(VacantEntry{map, key})
+    @M(r'^HashMap::<.*>::entry$', 'HashMap::entry')
+    def m_map_entry(I, st, f, args, fr):
+        r = args[0]
+        m = norm_coll(I.read(st, r.cell, r.path), 'HashMap')
+        outs = []
+        for s2, idx in map_find(I, st, m, args[1]):
+            if idx is None:
+                outs.append(Outcome(s2, 'ret', Enum('Entry', 'Vacant', 1, (Agg('VacantEntry', (Ref(r.cell, r.path, True), args[1])),))))
+            else:
+                outs.append(Outcome(s2, 'ret', Enum('Entry', 'Occupied', 0, (Agg('OccupiedEntry', (Ref(r.cell, r.path, True), idx)),))))
+        return outs
+
+    def _occ(I, st, a):
+        e = rd(I, st, a) if isinstance(a, Ref) else a
+        if not (isinstance(e, Agg) and e.ty == 'OccupiedEntry'):
+            raise Unmodelled('not an OccupiedEntry: %r' % (e,))
+        return e.fields[0], e.fields[1]
+
+    @M(r'(^|::)OccupiedEntry::<.*>::(get|get_mut|into_mut)$', 'OccupiedEntry::get / get_mut / into_mut')
+    def m_occ_get(I, st, f, args, fr):
+        mr, idx = _occ(I, st, args[0])
+        return I.ret(st, Ref(mr.cell, mr.path + (idx, 1), not f.endswith('::get')))
+
+    @M(r'(^|::)OccupiedEntry::<.*>::remove$', 'OccupiedEntry::remove')
+    def m_occ_remove(I, st, f, args, fr):
+        mr, idx = _occ(I, st, args[0])
+        m = norm_coll(I.read(st, mr.cell, mr.path), 'HashMap')
+        I.write(st, mr.cell, mr.path, Agg('HashMap', m.fields[:idx] + m.fields[idx + 1:]))
+        return I.ret(st, m.fields[idx].fields[1])
+
+    @M(r'(^|::)Entry::<.*>::or_default$', 'Entry::or_default (integer value types: 0)')
+    def m_entry_or_default(I, st, f, args, fr):
+        e = args[0]
+        if e.variant == 'Occupied':
+            mr, idx = _occ(I, st, e.fields[0])
+            return I.ret(st, Ref(mr.cell, mr.path + (idx, 1), True))
+        mm = re.search(r'Entry::<.*, ([iu](?:8|16|32|64|128|size))>::or_default$', f)
+        if not mm:
+            raise Unmodelled('or_default for a non-integer value type: ' + f)
+        ve = e.fields[0]
+        mr, key = ve.fields
+        m = norm_coll(I.read(st, mr.cell, mr.path), 'HashMap')
+        I.write(st, mr.cell, mr.path, Agg('HashMap', m.fields + (Agg('()', (key, I.mk_int(0, mm.group(1)))),)))
+        return I.ret(st, Ref(mr.cell, mr.path + (len(m.fields), 1), True))
+
     @M(r'^HashMap::<.*>::contains_key(::<.*>)?$|^HashSet::<.*>::contains(::<.*>)?$', 'contains_key')
     def m_map_contains(I, st, f, args, fr):
         r = args[0]
